@@ -26,7 +26,8 @@ REACH = ["names_cases", "evolution_cases", "versions_with_colon", "versions_with
 
 VER_ALPHA = "abzAZ019._-+=:#@"
 CL_ALPHA = "abzAZ019._-+=@"
-ADVERSARIAL = ["1:2", "a#b", "a::b", "#", ":", "::", "1#2:3", "v:", ":v", "a:b:c", "x@y", "1.0+b=2", "#:#", "a::b::c:d#e"]
+ADVERSARIAL = ["1:2", "a#b", "a::b", "#", ":", "::", "1#2:3", "v:", ":v", "a:b:c", "x@y", "1.0+b=2", "#:#", "a::b::c:d#e",
+               "1.link", "v.memento.json", "a.metadata.log", "x.versions", "..", ".hidden", "-", "_.tmp"]
 
 
 def gen_ident(rng):
@@ -49,7 +50,7 @@ def gen_case(seed):
                 "cache": cache, "auto": rng.random() < 0.15}
     evo = rng.choice(["edited", "removed", "renamed", "made-plain", "re-clustered", "unchanged", "edited-global"])
     return {"seed": seed, "kind": "evolution", "cluster": cluster, "module": mod, "cache": cache, "evolution": evo,
-            "caller_version": rng.choice(["p1", "1:2", "a#b", "7"]), "callee_explicit": rng.random() < 0.3,
+            "caller_version": rng.choice(["p1", "1:2", "a#b", "7"]), "callee_explicit": rng.random() < 0.4, "callee_ver_base": rng.choice(["c", "c", "1::", "a:b#", "x.link"]),
             "other_cluster": "oc" + gen_ident(rng), "nested": rng.random() < 0.4}
 
 
@@ -95,7 +96,7 @@ def evo_program(c, edition):
     gval = 2 if ev == "edited-global" else 1
     callee_ver = None
     if c["callee_explicit"]:
-        callee_ver = "c2" if ev in ("edited", "edited-global") else "c1"
+        callee_ver = c.get("callee_ver_base", "c") + ("2" if ev in ("edited", "edited-global") else "1")
     lines = ["import twosigma.memento as m", "", "GV = %d" % gval, ""]
     callee_name = "callee2" if ev == "renamed" else "callee"
     if ev != "removed":
@@ -208,7 +209,7 @@ def execute(c):
                 stats["static_method_functions"] = 1
             write_module(root, c["module"], names_program(c))
             fname = ("K." + c["fn"]) if c["static"] else c["fn"]
-            vshape = "auto" if c["auto"] else ("colon" if ":" in c["version"] else "hash" if "#" in c["version"] else "plain")
+            vshape = "auto" if c["auto"] else ("suffix" if c["version"] in ADVERSARIAL[14:] else "colon" if ":" in c["version"] else "hash" if "#" in c["version"] else "plain")
             for li, tag in enumerate(["first", "restart"]):
                 ev = run_names(root, c, tag)
                 log.append(ev)
